@@ -78,7 +78,7 @@ def check_absorption(got_entries, P_, theta, what):
         want = longs[0][2] or ""
         if l != want:
             raise Violation("label-lost", f"{what}: written interval {[s, e, l]} should carry the label {want!r} of its long piece {longs[0]}")
-        if not (e - s) >= theta:
+        if not (bounds[j] - bounds[i]) >= theta:  # judged on the in-memory boundaries (a written one may be integer-rounded)
             raise Violation("short-interval-written", f"{what}: {[s, e, l]} is shorter than {theta}")
         pos = j
     if pos != len(P_):
